@@ -10,8 +10,8 @@ HEAD=$(git -C /repo rev-parse HEAD)
 if [ ! -d $WT ]; then git -C /repo worktree add -q --detach $WT $HEAD || exit 2; fi
 git -C $WT checkout -q -- . ; git -C $WT checkout -q --detach $HEAD || exit 2
 build() {
-  [ -f $WT/_build/build.ninja ] || cmake -G Ninja -S $WT -B $WT/_build -DCMAKE_BUILD_TYPE=RelWithDebInfo -DCMAKE_CXX_FLAGS=-Wno-error -DOCCA_ENABLE_TESTS=ON >/dev/null 2>&1
-  cmake --build $WT/_build -j16 > $WT/_build.log 2>&1
+  [ -f $WT/_build/build.ninja ] || cmake -G Ninja -S $WT -B $WT/_build -DCMAKE_BUILD_TYPE= "-DCMAKE_CXX_FLAGS=-Wno-error -O0 -g0" -DOCCA_ENABLE_TESTS=ON >/dev/null 2>&1
+  cmake --build $WT/_build -j${VERIF_JOBS:-16} > $WT/_build.log 2>&1
 }
 rundemo() {  # $1 = tag
   local d=/tmp/mutv-demo; rm -rf $d; mkdir -p $d/cache
